@@ -350,8 +350,10 @@ def program_strategy(ctx):
         if depth == 0:
             return st.lists(atom, min_size=0, max_size=6)
         inner = block(depth - 1)
-        cond = st.tuples(push, st.sampled_from([0x63, 0x64]), inner, st.booleans(), inner).map(
-            lambda t: [t[0], t[1]] + t[2] + ([0x67] + t[4] if t[3] else []) + [0x68])
+        # (zero, one or several OP_ELSE: every one of them switches the branch being executed)
+        cond = st.tuples(push, st.sampled_from([0x63, 0x64]), inner, st.sampled_from([0, 1, 1, 1, 2, 3]), inner, inner,
+                         inner).map(
+            lambda t: [t[0], t[1]] + t[2] + [x for seg in (t[4], t[5], t[6])[:t[3]] for x in [0x67] + seg] + [0x68])
         return st.lists(st.one_of(atom, atom, atom, cond), min_size=0, max_size=6).map(
             lambda parts: [x for p in parts for x in (p if isinstance(p, list) else [p])])
     nest = st.one_of(st.none(), st.none(), st.tuples(st.integers(0, 40), st.integers(1, 12)).map(list))
@@ -392,6 +394,12 @@ def spend_case(kind, variant, secrets, m, digest_hex):
         elif variant == 'wrong_key':
             s0 = sig(secrets[0] + 1)
         items = [s0, pubs[0], 0xac]
+        if variant == 'empty_sig_not':
+            # consensus: an empty signature makes OP_CHECKSIG push false (it does not abort the script); with a
+            # following OP_NOT the script succeeds
+            items = [b'', pubs[0], 0xac, 0x91]
+        elif variant == 'empty_sig':
+            items = [b'', pubs[0], 0xac]
     elif kind == 'p2pkh':
         s0 = sig(secrets[0])
         pk = pubs[0]
@@ -403,6 +411,8 @@ def spend_case(kind, variant, secrets, m, digest_hex):
         elif variant == 'wrong_hash':
             h = hash160(pubs[0] + b'x')
         items = [s0, pk, 0x76, 0xa9, h, 0x88, 0xac]
+        if variant == 'empty_sig_not':
+            items = [b'', pk, 0x76, 0xa9, h, 0x88, 0xac, 0x91]
     else:
         n = len(secrets)
         signers = list(range(m))
@@ -474,6 +484,11 @@ def timelock_cases():
                         out.append({'kind': 'program', 'tag': name, 'skip_stack': False,
                                     'items': [enc(n).hex() if n else 0x00, op],
                                     'env': {'sequence': seq, 'locktime': tl, 'version': ver}})
+        # operands longer than the five bytes these opcodes read as a number (consensus: script number overflow)
+        for operand in ('010000000000', '050000000000', '0a00000000000000', '000000000001'):
+            for tl, seq in ((10, 0), (10, 5), (500000000, 0), (1700000000, (1 << 22) | 5)):
+                out.append({'kind': 'program', 'tag': name, 'skip_stack': False, 'items': [operand, op],
+                            'env': {'sequence': seq, 'locktime': tl, 'version': 2}})
     return out
 
 
@@ -608,7 +623,8 @@ def run(ctx):
     ctx.run_given('program', program_strategy(ctx), prop_program, ctx.scale(1500, 60000))
 
     # (3) spends
-    variants = {'p2pk': ['valid', 'wrong_sig', 'wrong_key'], 'p2pkh': ['valid', 'wrong_sig', 'wrong_key', 'wrong_hash'],
+    variants = {'p2pk': ['valid', 'wrong_sig', 'wrong_key', 'empty_sig_not', 'empty_sig'],
+                'p2pkh': ['valid', 'wrong_sig', 'wrong_key', 'wrong_hash', 'empty_sig_not'],
                 'bare_ms': ['valid', 'last_m', 'wrong_order', 'wrong_sig', 'missing_sig', 'outsider', 'missing_dummy'],
                 'p2sh_ms': ['valid', 'last_m', 'wrong_order', 'wrong_sig', 'missing_sig', 'outsider', 'missing_dummy']}
 
